@@ -440,8 +440,8 @@ example : letI := ratOps toyFns;
     (resetPP toyEnv [({ moles := 4 / 1000, f := -1, dissolveOnly := true, addFormula := false, initial := 5 / 1000, inert := 0 }, -4 / 1000)]).map (·.moles)
       = [5 / 1000] := by decide +kernel
 -- fractions of an ideal three-component solid solution
-example : letI := ratOps toyFns; ssIdeal [1 / 10, 3 / 10, 1 / 10] = [1 / 5, 3 / 5, 1 / 5] := by decide +kernel
-example : letI := ratOps toyFns; sumL (ssIdeal [1 / 10, 3 / 10, 1 / 10 : Rat]) = 1 := by decide +kernel
+example : letI := ratOps toyFns; ssIdeal [(1 / 10 : Rat), 3 / 10, 1 / 10] = [1 / 5, 3 / 5, 1 / 5] := by decide +kernel
+example : letI := ratOps toyFns; sumL (ssIdeal [(1 / 10 : Rat), 3 / 10, 1 / 10]) = 1 := by decide +kernel
 -- binary: outside the gap the fractions are n/ntot, inside (0.1 < xb < 0.8) the composition is pinned to xb1
 example : letI := ratOps toyFns;
     ((ssBinary 3 0 true (1 / 10) (8 / 10) (1 / 2) (1 / 2) 1).xb, (ssBinary 3 0 true (1 / 10) (8 / 10) (19 / 20) (1 / 20) 1).xb) = ((1 / 10 : Rat), (1 / 20 : Rat)) := by
